@@ -73,8 +73,16 @@ pub struct Rig {
 }
 
 impl Rig {
+    /// like `new`, but runtime errors carry their source trace
+    pub fn new_with_trace(stack: usize, calls: usize, mem: usize) -> Self {
+        let r = Self::new(stack, calls, mem);
+        cao_lang::verif_hooks::set_skip_error_trace(false);
+        r
+    }
     /// small VM with one base call frame (offset 0), like `Vm::run` sets up
     pub fn new(stack: usize, calls: usize, mem: usize) -> Self {
+        // error locations are C15's subject; everywhere else the trace is not built
+        cao_lang::verif_hooks::set_skip_error_trace(true);
         let mut vm = Vm::verif_new_small((), mem, stack, calls).unwrap();
         vm.max_instr = 64;
         let ok = vm.runtime_data.verif_push_frame(0, 0, 0, None);
